@@ -188,7 +188,11 @@ class C05Adaptive(Harness):
              "q": [declare_cells(cx, f"{'ab'[i]}q", [p["n"][i]], "int") for i in range(2)]}
         if p["shift"]:
             x["s"] = cx.pyfloat("s")
+        # value statistics of both operands (sum, sum2, min, max, weight): merged by an addition on a grown grid as on equal bins
+        x["st"] = [[cx.pyfloat(f"{'ab'[i]}s{k}") for k in STAT_KEYS] for i in range(2)]
         if cx.sym:
+            for st in x["st"]:
+                cx.assume(st[4] >= 0, st[2] <= st[3])
             cx.assume(x["w"] > 0)
             cx.define("tiny_width", cx.t(x["w"]) <= z3.Q(1, 10**9))
             cx.assume(z3.Or(cx.t(x["w"]) <= z3.Q(1, 10**9), cx.t(x["w"]) >= z3.Q(1, 10**6)))
@@ -207,7 +211,9 @@ class C05Adaptive(Harness):
         if p["shift"]:
             kw["bin_shift"] = x["s"]
         b = FWB(**kw)
-        return H1(b, np.asarray(x["f"][i], dtype=int), np.asarray(x["q"][i], dtype=int))
+        St = E.mod("physt.statistics").Statistics
+        st = x["st"][i]
+        return H1(b, np.asarray(x["f"][i], dtype=int), np.asarray(x["q"][i], dtype=int), stats=St(sum=st[0], sum2=st[1], min=st[2], max=st[3], weight=st[4]))
 
     def drive(self, E, p, x):
         a, b = self._mk(E, p, x, 0), self._mk(E, p, x, 1)
@@ -220,6 +226,7 @@ class C05Adaptive(Harness):
             else:
                 obs[k] = snap1d(E, r)
                 obs[k]["adaptive"] = r.is_adaptive()
+                obs[k]["stats"] = _stats(E, r)
         return obs
 
     def oracle(self, cx, p, x, obs):
@@ -234,6 +241,10 @@ class C05Adaptive(Harness):
             yield f"{key}_no_exception", "raised" not in r
             if "raised" in r:
                 continue
+            S = [[cx.t(v) for v in st] for st in x["st"]]
+            rs = r["stats"]
+            yield f"{key}_stats_sums", z3.And(cx.eq(rs["sum"], S[0][0] + S[1][0]), cx.eq(rs["sum2"], S[0][1] + S[1][1]), cx.eq(rs["weight"], S[0][4] + S[1][4]))
+            yield f"{key}_stats_minmax", z3.And(cx.eq(rs["min"], z3.If(S[0][2] < S[1][2], S[0][2], S[1][2])), cx.eq(rs["max"], z3.If(S[0][3] > S[1][3], S[0][3], S[1][3])))
             if n[0] == 0 and n[1] == 0:
                 yield f"{key}_empty", len(r["freq"]) == 0
                 continue
